@@ -125,10 +125,13 @@ func nativeReplay(workDir, pkgRel string, rf *ReplayFile, replayPath string) (st
 	return "", "no-result", o
 }
 
+var replaySeq int
+
 func (c *CheckCtx) saveReplay(rf *ReplayFile, n int) string {
 	dir := filepath.Join(verifDir, "replays", c.ID)
 	os.MkdirAll(dir, 0755)
-	path := filepath.Join(dir, fmt.Sprintf("%s-%d.json", rf.Harness, n))
+	replaySeq++
+	path := filepath.Join(dir, fmt.Sprintf("%s-%d.json", rf.Harness, replaySeq))
 	b, _ := json.MarshalIndent(rf, "", " ")
 	os.WriteFile(path, b, 0644)
 	return path
